@@ -5,6 +5,9 @@
 import GruleModel.Proofs.LexTokens
 import GruleModel.Proofs.LexFixed
 import GruleModel.Proofs.RealLiterals
+import GruleModel.Proofs.ParseSim
+import GruleModel.Syntax.Front
+import GruleModel.Valid
 namespace Grule.LexDoc
 open Grule Grule.Syntax Grule.LexRender Grule.LexTokens Grule.LexFixed Grule.ParseGroup Grule.ParseAtoms Grule.ParseDoc Grule.RealLiterals Grule.Json
 
@@ -356,7 +359,70 @@ theorem sample_text : String.ofList (docText [sampleRule]) =
 theorem sample_roundtrip : parseDoc realDec (lex (docText [sampleRule])).toks = ([sampleRule], none) :=
   (lex_parse_doc [sampleRule] (by intro r hr; simp only [List.mem_singleton] at hr; subst hr; exact sample_ok)).2
 
+/-- **The front end accepts the canonical text of every well-formed document and returns exactly its rules**: no lexer
+    error, grammatical (the decoder-independent question `front` asks with `anyDec`: `ParseSim.parseDoc_any`), every literal
+    decodes, and — saliences inside int32 — the verdict is `accepted`. -/
+theorem front_docText (rules : List Rule) (h : ∀ r ∈ rules, WFRule Covered r ∧ LRule r) (hs : rules.all salienceOk = true) :
+    front (docText rules) = { verdict := .accepted, rules := rules, lexErrs := 0, grammatical := true } := by
+  obtain ⟨hl, hp⟩ := lex_parse_doc rules h
+  have hg := ParseSim.parseDoc_any realDec _ rules hp
+  unfold front
+  rw [hl] at hp hg
+  simp only [hl, hp, hg, hs]
+  simp
+
+theorem sample_front : front (docText [sampleRule]) = { verdict := .accepted, rules := [sampleRule], lexErrs := 0, grammatical := true } :=
+  front_docText [sampleRule] (by intro r hr; simp only [List.mem_singleton] at hr; subst hr; exact sample_ok) (by decide +kernel)
+
+-- what the lexer admits as a name is a name for the snapshot theorems --------------------------------------------------------
+
+theorem ascii_ok : ∀ n : Fin 128, isIC (Char.ofNat n.val) = true → okChar (Char.ofNat n.val) = true := by decide +kernel
+
+theorem ic_ok (c : Char) (h : isIC c = true) : okChar c = true := by
+  by_cases hlt : c.toNat < 128
+  · have := ascii_ok ⟨c.toNat, hlt⟩
+    simp only [Char.ofNat_toNat] at this
+    exact this h
+  · simp only [okChar, Bool.or_eq_true, decide_eq_true_eq]
+    exact Or.inr (by omega)
+
+theorem isc_ok (c : Char) (h : isISC c = true) : okChar c = true :=
+  ic_ok c (by simp [isIC, h])
+
+theorem okName_of (s : String) (h : LexName s) : okName s = true := by
+  obtain ⟨c, w, hs, hc, hw, _⟩ := h
+  simp only [okName, hs, List.isEmpty_cons, Bool.not_false, Bool.true_and, List.all_cons, Bool.and_eq_true, List.all_eq_true]
+  exact ⟨isc_ok c hc, fun x hx => ic_ok x (hw x hx)⟩
+
+theorem okConst_of (c : Const) (h : Covered c) : okConst c = true := by
+  cases c <;> first | rfl | exact absurd h (by simp [Covered])
+
+mutual
+  theorem validE_of : (e : Expr) → LE e → validE e = true
+    | .bin _ l r, h => by simp only [LE] at h; simp only [validE, validE_of l h.1, validE_of r h.2, Bool.and_self]
+    | .paren _ e, h => by simp only [LE] at h; simp only [validE, validE_of e h]
+    | .atom a, h => by simp only [LE] at h; simp only [validE, validA_of a h]
+  theorem validA_of : (a : Atom) → LA a → validA a = true
+    | .const c, h => by simp only [LA] at h; simp only [validA, okConst_of c h]
+    | .var v, h => by simp only [LA] at h; simp only [validA, validV_of v h]
+    | .call f args, h => by simp only [LA] at h; simp only [validA, okName_of f h.1, validArgs_of args h.2, Bool.and_self]
+    | .meth recv f args, h => by
+      simp only [LA] at h; simp only [validA, validA_of recv h.1, okName_of f h.2.1, validArgs_of args h.2.2, Bool.and_self]
+    | .member recv n, h => by simp only [LA] at h; simp only [validA, validA_of recv h.1, okName_of n h.2, Bool.and_self]
+    | .sel recv idx, h => by simp only [LA] at h; simp only [validA, validA_of recv h.1, validE_of idx h.2, Bool.and_self]
+    | .neg a, h => by simp only [LA] at h; simp only [validA, validA_of a h]
+  theorem validV_of : (v : Var) → LV v → validV v = true
+    | .root n, h => by simp only [LV] at h; simp only [validV, okName_of n h]
+    | .field v n, h => by simp only [LV] at h; simp only [validV, validV_of v h.1, okName_of n h.2, Bool.and_self]
+    | .index v e, h => by simp only [LV] at h; simp only [validV, validV_of v h.1, validE_of e h.2, Bool.and_self]
+  theorem validArgs_of : (as : Args) → LArgs as → validArgs as = true
+    | .nil, _ => by simp only [validArgs]
+    | .cons e rest, h => by simp only [LArgs] at h; simp only [validArgs, validE_of e h.1, validArgs_of rest h.2, Bool.and_self]
+end
+
 #print axioms lex_parse_doc
+#print axioms validE_of
+#print axioms front_docText
 #print axioms sample_roundtrip
 
 end Grule.LexDoc
